@@ -36,6 +36,31 @@ CHECKS = {
  "C17": stateful("C17", "TLC checks ParOnce/ParClientBound/ParExpires/ParEnforced; behaviours (push, use by right/wrong client, twice, after expiry, with conflicting query parameters, unknown/foreign-prefix URIs) replayed; the parameters of the resulting request are compared with the pushed ones.", "DESIGN.md 6 C17"),
 }
 
+STEPS_NOTE = ("Trusted: TLC 1.8 + CommunityModules Json; Go 1.26 testing/synctest; the storage gate of the harness (parks every request "
+              "before each storage-interface call, injects the error kinds generic / ErrNotFound / ErrInactiveToken / ErrSerializationFailure); "
+              "the transactional wrapper (snapshot of all tables, restored on rollback). Scenarios and bounds are those of MCSteps.tla "
+              "(ScnFault*, ScnConc*) and are recorded in the evidence file.")
+
+def steps(pid, cat, what, ref, technique):
+    return {
+        "property_id": pid,
+        "quick_cmd": f"bin/check {pid} --tier quick",
+        "thorough_cmd": f"bin/check {pid} --tier thorough",
+        "evidence_file": f"evidence/{pid}.json",
+        "replay_cmd_template": f"bin/check {pid} --replay {{path}}",
+        "engine": "tla-steps",
+        "level_claimed": {"category": cat, "design_ref": ref, "text": what},
+        "level_note": STEPS_NOTE,
+        "technique": technique,
+    }
+
+CHECKS["C18"] = steps("C18", "fault_enumeration",
+    "Steps.tla refines every token-issuing/revoking request into its storage calls; TLC enumerates every call index x error kind (single faults; pairs at thorough) for the code, PKCE, hybrid, replay, refresh, refresh-reuse, revocation, authorize and device flows, with a transactional store with real rollback and with the plain reference store, followed by a retry and a replay, and checks NoTokensOnFailure / TxBalanced / RollbackRestores / FailClosed / RetryStillGuarded in every state. Every one of these fault schedules is forced on the real code through the storage gate and validated step by step (method called, store projection, tx log, result); predicates that need only the observation are evaluated on it as well.",
+    "DESIGN.md 6 C18", "TLA+ step-level spec (Steps/MCSteps) model-checked with TLC; TLC-enumerated fault schedules injected into the real code at the storage interface; recorded traces validated with TLC (TraceSteps)")
+CHECKS["C19"] = steps("C19", "model_checking",
+    "TLC explores every interleaving, at storage-call granularity, of two and three in-flight requests on overlapping credentials (MCSteps ScnConc2/ScnConc3) and checks HandedOutActiveOrKilledByPeer / MintFresh / refinement of the sequential design; the schedules (all of them at thorough, a seeded sample at quick) are forced on real goroutines through the storage gate and every step is validated: the handler called the storage method the spec names, the call had exactly the specified atomic effect on the store, results and final activity agree. Outside the specification (a TLA+ model cannot see a missing lock) the same harness runs free under the Go race detector with default-constructed and fully populated configurations, a watchdog and recover.",
+    "DESIGN.md 6 C19", "TLA+ step-level spec model-checked with TLC; TLC-generated schedules forced on real goroutines; traces validated with TLC (TraceSteps); Go race detector for the memory-level clause")
+
 NOT_YET = "check not built yet in this session (planned, see DESIGN.md section 10); nothing is claimed"
 
 def main():
@@ -55,6 +80,9 @@ def main():
             {"name": "tla-stateful", "path": "spec/Store.tla spec/Grants.tla spec/MCGrants.tla spec/TraceGrants.tla lib/stateful.py harness/",
              "serves_properties": sorted(k for k, v in checks.items() if v.get("engine") == "tla-stateful"),
              "kind_free_text": "explicit TLA+ specification; TLC exhaustive model checking of the bounded design; TLC-generated behaviours replayed on the real code by a Go harness; TLC trace validation of the recorded executions"},
+            {"name": "tla-steps", "path": "spec/Steps.tla spec/MCSteps.tla spec/TraceSteps.tla lib/steps.py harness/steps.go harness/store.go",
+             "serves_properties": sorted(k for k, v in checks.items() if v.get("engine") == "tla-steps"),
+             "kind_free_text": "step-level refinement of the spec (one storage call per step); TLC enumerates interleavings and fault placements; schedules forced on the real code through a storage gate; TLC trace validation"},
         ] + extra.get("engines", []),
         "checks": [checks[k] for k in sorted(checks)],
         "not_applicable": [{"property_id": k, "reason": extra.get("na", {}).get(k, NOT_YET)} for k in ALL if k not in checks],
